@@ -272,6 +272,19 @@ pub fn replay(case: &Value) -> Result<String, String> {
             }
             Ok("all policy sinks give the reference checksum".into())
         }
+        "interleaved" => {
+            let (a, b) = (kvs_from(&case["a"]), kvs_from(&case["b"]));
+            let e = |x: fst::Error| format!("{:?}", x);
+            let mut ba = fst::raw::Builder::memory();
+            let mut bb = fst::raw::Builder::memory();
+            for j in 0..a.len().max(b.len()) {
+                if let Some((k, v)) = a.get(j) { ba.insert(k, *v).map_err(e)?; }
+                if let Some((k, v)) = b.get(j) { bb.insert(k, *v).map_err(e)?; }
+            }
+            trailer_ok(&ba.into_inner().map_err(e)?)?;
+            trailer_ok(&bb.into_inner().map_err(e)?)?;
+            Ok("both trailers are the reference checksum".into())
+        }
         "sinkpolicy" => {
             use crate::sink::{Policy, ScriptSink};
             let kvs = kvs_from(&case["kvs"]);
@@ -302,7 +315,7 @@ pub fn replay(case: &Value) -> Result<String, String> {
 pub fn plan(tier: Tier) -> Plan {
     let mut p = Plan::new("C08", "model_checking");
     let thorough = tier.thorough();
-    p.rule = "(a) every single-byte mutant (every position x all 255 other values) and every 2-4 byte burst (xor masks {01,80,ff} per byte) of every FST built from subsets of U_ab3 with <= 3 keys (thorough: <= 5) plus fan-out FSTs: 'opens and verify()==Ok' (asked once, asked a second time, or asked of a clone of the reader) is the violation, also when a reader opened on the intact file is handed the mutant through map_data (9 of the 255 values per position); (b) the trailing 4 bytes of every builder output (all subsets of U_ab3/U_abc2/U_raw2 x patterns, fan-out families, single-key ladders giving every file length 37..4150 and 150 lengths around each of 2^13..2^17; built maps whose checksum VALUE is 0, 1, 2^31-1, 2^31, u32::MAX-1, u32::MAX, the mask constant, 0x0000ffff, 0xffff0000 - found by solving for 32 free value bits over GF(2)) equal an independent bitwise masked CRC-32C, and verify() passes at every start offset 1..15 from a 16-byte boundary; (c) through hook H3 every 2-cut and 3-cut of buffers of length 0..64 (3 contents) and cuts at 0,1,15,16,17,31,32,33 from either end for lengths up to 4096; non-trivial = mutants + chunkings with >= 2 non-empty chunks".into();
+    p.rule = "[also: two builders alive on one thread and fed alternately, with a third built completely in between - every trailer is the reference checksum of its own file] (a) every single-byte mutant (every position x all 255 other values) and every 2-4 byte burst (xor masks {01,80,ff} per byte) of every FST built from subsets of U_ab3 with <= 3 keys (thorough: <= 5) plus fan-out FSTs: 'opens and verify()==Ok' (asked once, asked a second time, or asked of a clone of the reader) is the violation, also when a reader opened on the intact file is handed the mutant through map_data (9 of the 255 values per position); (b) the trailing 4 bytes of every builder output (all subsets of U_ab3/U_abc2/U_raw2 x patterns, fan-out families, single-key ladders giving every file length 37..4150 and 150 lengths around each of 2^13..2^17; built maps whose checksum VALUE is 0, 1, 2^31-1, 2^31, u32::MAX-1, u32::MAX, the mask constant, 0x0000ffff, 0xffff0000 - found by solving for 32 free value bits over GF(2)) equal an independent bitwise masked CRC-32C, and verify() passes at every start offset 1..15 from a 16-byte boundary; (c) through hook H3 every 2-cut and 3-cut of buffers of length 0..64 (3 contents) and cuts at 0,1,15,16,17,31,32,33 from either end for lengths up to 4096; non-trivial = mutants + chunkings with >= 2 non-empty chunks".into();
     p.assumptions = vec![
         "independent reference: bit-by-bit reflected CRC-32C (0x82F63B78), validated on the RFC 3720 vector, rotate-right-15 + 0xA282EAD8 mask".into(),
         "chunking by a sink: policy sinks (cap 1..16, Interrupted before every call) here; the full answer-schedule space is C07's".into(),
@@ -392,6 +405,43 @@ pub fn plan(tier: Tier) -> Plan {
             }
         }));
     }
+    // (d0) two or three builders alive on one thread and fed alternately (every builder
+    // checksums its OWN bytes), also nested: a second builder built completely
+    // between two inserts of the first
+    p.units.push(unit("builders-alive-together-on-one-thread", "interleaved builders".into(), move |st, rep| {
+        let inputs = super::c07::inputs();
+        for (i, (na, a)) in inputs.iter().enumerate() {
+            for (nb, b) in inputs.iter().skip(i) {
+                st.evals += 1;
+                st.states += 1;
+                st.nontrivial += 1;
+                st.count("interleaved_builder_pairs", 1);
+                let r = guard(|| -> Result<(), String> {
+                    let e = |x: fst::Error| format!("{:?}", x);
+                    let mut ba = fst::raw::Builder::memory();
+                    let mut bb = fst::raw::Builder::memory();
+                    let n = a.len().max(b.len());
+                    for j in 0..n {
+                        if let Some((k, v)) = a.get(j) { ba.insert(k, *v).map_err(e)?; }
+                        if let Some((k, v)) = b.get(j) { bb.insert(k, *v).map_err(e)?; }
+                        if j == n / 2 {
+                            // nested: a third builder from start to finish
+                            let mut bc = fst::raw::Builder::memory();
+                            for (k, v) in b.iter().take(5) { bc.insert(k, *v).map_err(e)?; }
+                            trailer_ok(&bc.into_inner().map_err(e)?).map_err(|m| format!("builder built completely in the middle of two others: {}", m))?;
+                        }
+                    }
+                    let (xa, xb) = (ba.into_inner().map_err(e)?, bb.into_inner().map_err(e)?);
+                    trailer_ok(&xa).map_err(|m| format!("first of two builders fed alternately: {}", m))?;
+                    trailer_ok(&xb).map_err(|m| format!("second of two builders fed alternately: {}", m))
+                })
+                .and_then(|x| x);
+                if let Err(msg) = r {
+                    rep.violation(format!("interleaved builders {} / {}", na, nb), msg, json!({"kind": "interleaved", "a": kvs_json(a), "b": kvs_json(b)}));
+                }
+            }
+        }
+    }));
     // (d) chunking by the sink: every cap 1..16 and Interrupted-before-every-call
     // sink (the full schedule space is C07's); the bytes the sink ends up with
     // must carry the reference checksum and verify
